@@ -31,7 +31,7 @@ import (
 // C15 — a stalled consumer cannot delay others or corrupt its own framing.
 //
 // One lal server per case, write queues shrunk to 64 entries, write timeouts to 500 ms and the
-// liveness sweep to every tick (process globals set in Setup, verif hooks for the private ones).
+// liveness sweep to every 2 s (process globals set in Setup, verif hooks for the private ones).
 // Two RTMP publishers (streams A and B) send tagged frames at ≤500 frames/s; healthy witnesses
 // (RTMP + HTTP-FLV on A, RTMP on B) read eagerly and time-stamp every frame. k consumers
 // join A (and B) over each of the six subscriber protocols and then
@@ -90,7 +90,7 @@ type c15Client struct {
 }
 
 func c15Setup(c *fw.Ctx) {
-	base.LogicCheckSessionAliveIntervalSec = 1
+	base.LogicCheckSessionAliveIntervalSec = 2
 	httpflv.SubSessionWriteChanSize = c15Queue
 	httpflv.SubSessionWriteTimeoutMs = c15WriteTimeoutMs
 	httpts.SubSessionWriteChanSize = c15Queue
@@ -784,6 +784,19 @@ func c15Run(c *fw.Ctx, i int) {
 	// ---- verdicts
 	for _, pb := range pubs {
 		if pb.err != nil {
+			// lal's liveness sweep (every 2 s here) is entitled to drop a publisher that itself
+			// stopped sending for that long: only a publisher that kept sending counts
+			var maxGap time.Duration
+			n := int(atomic.LoadInt64(&pb.sent))
+			for k := 1; k < n; k++ {
+				if g := pb.sentAt[k].Sub(pb.sentAt[k-1]); g > maxGap {
+					maxGap = g
+				}
+			}
+			if maxGap > 1500*time.Millisecond {
+				c.Inconclusive("publisher %s paused for %v by itself (loaded machine or pacing) and was dropped by the liveness sweep", pb.name, maxGap)
+				return
+			}
 			c.Violate("publisher-disconnected/"+pb.name, fmt.Sprintf("publisher of stream %s lost its connection while consumers were stalled: %v", pb.name, pb.err), plans)
 			return
 		}
@@ -882,7 +895,7 @@ func c15Run(c *fw.Ctx, i int) {
 		if p.Mode == "stall" && sf >= 0 {
 			c.Count("pure_stall_consumers", 1)
 			if st < 0 && endFrame-sf > c15DisconnectFrames {
-				c.Violate("not-disconnected/"+p.Kind, fmt.Sprintf("%s consumer stopped reading at publisher frame %d and was still admitted %d frames (≥%d ms) later; write timeout %d ms, sweep 1 s",
+				c.Violate("not-disconnected/"+p.Kind, fmt.Sprintf("%s consumer stopped reading at publisher frame %d and was still admitted %d frames (≥%d ms) later; write timeout %d ms, sweep 2 s",
 					p.Kind, sf, endFrame-sf, 2*(endFrame-sf), c15WriteTimeoutMs), p)
 			} else if st >= 0 && st-sf > c15DisconnectFrames {
 				c.Violate("not-disconnected/"+p.Kind, fmt.Sprintf("%s consumer stopped reading at publisher frame %d and was disconnected only %d frames later", p.Kind, sf, st-sf), p)
@@ -1192,7 +1205,7 @@ func init() {
 		Setup:       c15Setup,
 		Batches:     func(string) int { return 18 },
 		CaseTimeout: func(string) time.Duration { return 3 * time.Minute },
-		Rule: "whole-server runs with write queues of 64 entries, write timeouts of 1000 ms and the liveness sweep on every tick. Two RTMP publishers send tagged H.264+AAC frames (6–30 KB video, ≤313 B audio) at ≤500 frames/s to streams a and b; healthy RTMP and HTTP-FLV witnesses time-stamp every frame. k ∈ {1,4,16} consumers join over RTMP, HTTP-FLV, WS-FLV, HTTP-TS, RTSP interleaved and WS-RTSP and stop reading for good / read 4–32 KiB every 2–20 ms (0.2 … 16 MB/s against ≈3.4 MB/s published per stream) / stop for 0.3–2.5 s and resume (the kernel absorbs ≈2.8 MB ≈ 0.9 s before the 64-entry queue starts to fill), from a seeded byte offset (0 … 300 000). Oracles: (1) every frame published after the witnesses joined reaches them, in order, with latency, publisher send time and pacing wait ≤ 3 s (control window before the consumers join must be ≤ 0.5 s, else inconclusive); (2) a consumer that never reads again gets sub_stop within 4000 publisher frames (each ≥ 2 ms) of stalling and its socket reaches EOF; (3) all bytes a stalled consumer read parse with the reference HTTP/FLV/WebSocket/TS/RTMP-chunk/interleaved parsers, every audio/video unit is byte-identical to a published message and units are in publish order (gaps allowed), TS packets stay 188-aligned with known PIDs, every WS-RTSP frame holds exactly one interleaved packet, RTP sequence numbers only move forward; a trailing partial unit is accepted only on a connection the server closed. cell = protocol × plan × k.",
+		Rule: "whole-server runs with write queues of 64 entries, write timeouts of 1000 ms and the liveness sweep every 2 s. Two RTMP publishers send tagged H.264+AAC frames (6–30 KB video, ≤313 B audio) at ≤500 frames/s to streams a and b; healthy RTMP and HTTP-FLV witnesses time-stamp every frame. k ∈ {1,4,16} consumers join over RTMP, HTTP-FLV, WS-FLV, HTTP-TS, RTSP interleaved and WS-RTSP and stop reading for good / read 4–32 KiB every 2–20 ms (0.2 … 16 MB/s against ≈3.4 MB/s published per stream) / stop for 0.3–2.5 s and resume (the kernel absorbs ≈2.8 MB ≈ 0.9 s before the 64-entry queue starts to fill), from a seeded byte offset (0 … 300 000). Oracles: (1) every frame published after the witnesses joined reaches them, in order, with latency, publisher send time and pacing wait ≤ 3 s (control window before the consumers join must be ≤ 0.5 s, else inconclusive); (2) a consumer that never reads again gets sub_stop within 4000 publisher frames (each ≥ 2 ms) of stalling and its socket reaches EOF; (3) all bytes a stalled consumer read parse with the reference HTTP/FLV/WebSocket/TS/RTMP-chunk/interleaved parsers, every audio/video unit is byte-identical to a published message and units are in publish order (gaps allowed), TS packets stay 188-aligned with known PIDs, every WS-RTSP frame holds exactly one interleaved packet, RTP sequence numbers only move forward; a trailing partial unit is accepted only on a connection the server closed. cell = protocol × plan × k.",
 		Assumptions: []string{"loopback TCP; the server-side send buffer is the kernel default (no hook), so the queue-full instants depend on kernel buffering", "delay bound 3 s and disconnect bound 2×(timeout+sweep)+3 s are this check's reading of 'a small bound'"},
 		MinCells: 6,
 		Run:      c15Run,
